@@ -31,11 +31,15 @@ def _case(draw, tier):
     cfg = draw(gen.store_cfgs())
     content = draw(gen.contents(max_small=40))
     entry = draw(st.sampled_from(["store", "store", "dii"]))
-    cks = draw(st.sampled_from(["right", "upper", "mixed", "wrong", "short"] + (["none"] if entry == "store" else [])))
+    cks = draw(st.sampled_from(["right", "upper", "mixed", "wrong", "short", "lookalike", "other"] + (["none"] if entry == "store" else [])))
     size = draw(st.sampled_from(["none", "right", "right", "wrong"]))
     if cks == "none" and size == "none":
         size = "wrong"
-    return {"cfg": cfg, "contents": [content], "entry": entry,
+    # cks == "other": the checksum is the true digest of ANOTHER object that is in the store (often under the store's own
+    # algorithm, i.e. it is that object's cid)
+    other = draw(gen.contents(max_small=24, big=False))
+    return {"cfg": cfg, "contents": [content, other], "entry": entry, "other_prior": draw(st.sampled_from(["unref", "ref", "absent"])),
+            "other_algo_is_store_algo": draw(st.booleans()),
             "prior": draw(st.sampled_from(["absent", "unref", "ref"])),
             "cks": cks, "cks_algo": draw(gen.algo_spelling()), "size": size,
             "dsize": draw(st.sampled_from([-1, 1, 7])), "flip": draw(st.integers(0, 200)),
@@ -62,6 +66,11 @@ def run_case(case, ctx):
         run.step({"op": "store", "pid": OTHER, "c": 0})
     common_args = {"c": 0, "cks": case["cks"], "cks_algo": case["cks_algo"], "size": case["size"],
                    "dsize": case["dsize"], "flip": case["flip"]}
+    if case["cks"] == "other" and len(run.contents) > 1:
+        if run.contents[1] != run.contents[0] and case.get("other_prior") != "absent":
+            run.step({"op": "store", "pid": None if case.get("other_prior") == "unref" else "the/other:object", "c": 1})
+        if case.get("other_algo_is_store_algo"):
+            common_args["cks_algo"] = run.cfg.halgo
     if entry == "store":
         add = {"none": None, "same-as-cks": case["cks_algo"], "store-algo": run.cfg.halgo,
                "other": case.get("add_other")}[case.get("add", "none")]
